@@ -343,3 +343,75 @@ Definition is_check (e : event) : bool :=
   match e with CheckPresent | CheckValue | LibVerify => true | _ => false end.
 
 Definition path_ok (p : str) : bool := match p with [] => false | c :: _ => negb (is_sep c) end.
+
+(* ------------------------------------------------------------------------------------------ *)
+(* one transport object over time: open, close, open again                                     *)
+(* ------------------------------------------------------------------------------------------ *)
+(* Everything a transport object could have kept from its earlier handshakes: the host keys that
+   were presented in the completed key exchanges of its life, most recent first (close() cannot
+   un-see them).  The configuration (strictness, credentials) is fixed on the object; what differs
+   from one open to the next is the scenario's world part — the key the server presents now, what
+   lookup() returns for the known_hosts file as it is now, what the server accepts now. *)
+Definition tstate := list bytes.
+Definition t_init : tstate := [].
+Definition t_record (st : tstate) (s : scen) : tstate := if handshake_ok s then skey s :: st else st.
+
+Inductive hstep := HOpen (s : scen) | HClose.
+
+(* one call of open() on an object in state [st]: its events, and the state afterwards *)
+Definition stepfn := tstate -> scen -> list event * tstate.
+
+(* the transports as written: open() builds a new library session and fetches the key from it;
+   nothing of [st] is read *)
+Definition step_open (pass_kh : bool) (l : lib) : stepfn :=
+  fun st s => (open_trace pass_kh l s, t_record st s).
+
+(* the history of an object: every open paired with the scenario it really ran against (whose
+   server receives whatever is offered) *)
+Fixpoint run_history (f : stepfn) (st : tstate) (h : list hstep) : list (scen * list event) :=
+  match h with
+  | [] => []
+  | HOpen s :: r => let (tr, st') := f st s in (s, tr) :: run_history f st' r
+  | HClose :: r => run_history f st r
+  end.
+
+Fixpoint opens (h : list hstep) : list scen :=
+  match h with [] => [] | HOpen s :: r => s :: opens r | HClose :: r => opens r end.
+
+(* neighbours of the code as written, used only for the refutations: a transport that keeps the
+   server key on the object and verifies the remembered one — the first it ever saw, or the one
+   of the previous handshake — instead of the key of the session it has just built *)
+Definition with_skey (s : scen) (k : bytes) : scen :=
+  mkS (strict s) (entry s) k (libv s) (handshake_ok s) (has_key s) (has_pw s) (has_user s)
+      (key_ok s) (pw_ok s) (kbd_ok s).
+Definition step_open_first_seen (l : lib) : stepfn :=
+  fun st s => (open_trace true l (match rev st with k :: _ => with_skey s k | [] => s end), t_record st s).
+Definition step_open_prev_seen (l : lib) : stepfn :=
+  fun st s => (open_trace true l (match st with k :: _ => with_skey s k | [] => s end), t_record st s).
+
+(* system transport: open() builds the argv only while the object has none (open_cmd is kept) *)
+Definition sys_open (cache : list str) (a : sysargs) : list str :=
+  if is_nil cache then build_open_cmd a else cache.
+Fixpoint sys_history (cache : list str) (a : sysargs) (n : nat) : list (list str) :=
+  match n with
+  | O => []
+  | S n' => let argv := sys_open cache a in argv :: sys_history argv a n'
+  end.
+
+(* the attributes a library transport object stores on itself (Gen_HostKey.v lists the ones the
+   source assigns): constructor arguments, the socket, the library session and its channel /
+   streams — no key, no verdict *)
+Definition s_attr_args : str := [112;108;117;103;105;110;95;116;114;97;110;115;112;111;114;116;95;97;114;103;115].
+Definition s_attr_socket : str := [115;111;99;107;101;116].
+Definition s_attr_session : str := [115;101;115;115;105;111;110].
+Definition s_attr_channel : str := [115;101;115;115;105;111;110;95;99;104;97;110;110;101;108].
+Definition s_attr_stdin : str := [115;116;100;105;110].
+Definition s_attr_stdout : str := [115;116;100;111;117;116].
+(* "session.*": a store into the library session of the current open (paramiko: disabled_algorithms) *)
+Definition s_attr_session_inner : str := s_attr_session ++ [46;42].
+Definition object_state (l : lib) : list str :=
+  match l with
+  | Asyncssh => [s_attr_args; s_attr_session; s_attr_stdin; s_attr_stdout]
+  | Paramiko => [s_attr_args; s_attr_session; s_attr_session_inner; s_attr_channel; s_attr_socket]
+  | Ssh2 => [s_attr_args; s_attr_session; s_attr_channel; s_attr_socket]
+  end.
